@@ -72,6 +72,9 @@ def _stable_name(value: Any) -> str:
             getattr(value, '__closure__', None) is None and \
             (owner is None or isinstance(owner, (type, ModuleType))):
         return "{}.{}".format(module, name)
+    if value is None or isinstance(value, (str, bytes, int, float)):
+        # a plain constant is its own name, in every process
+        return repr(value)
     # (the identity is part of the name: the representation of a class
     # made by a factory function, for one, is that of its siblings)
     return "%s@%x" % (repr(value), id(value))
